@@ -738,6 +738,7 @@ def shrink(case, sig):
         def bad(ops):
             a = Acc()
             try:
+                fresh_codec()      # every candidate history starts from a clean codec, as its replay will
                 run_sequence(a, ops)
             except Exception:
                 return False
@@ -746,6 +747,7 @@ def shrink(case, sig):
             return case
         ops = ddmin.ddmin(case['ops'], bad, ddmin.Budget(200))
         a = Acc()
+        fresh_codec()
         run_sequence(a, ops)
         v = a.violations[0]
         return v['case'], v['sig'], v['detail']
